@@ -9,3 +9,6 @@ void h_dfcc_pf(void) { cfg_opt_t *o; cfg_print_func_t f; cfg_opt_set_print_func(
 void h_dfcc_size(void) { cfg_opt_t *o; cfg_opt_size(o); }
 void h_dfcc_title(void) { cfg_t *c; cfg_title(c); }
 void h_dfcc_getnint(void) { cfg_opt_t *o; unsigned i; cfg_opt_getnint(o, i); }
+/* loops closed by loop contracts (DESIGN 10.8) */
+void h_dfcc_numopts(void) { cfg_opt_t *o; cfg_numopts(o); }
+void h_dfcc_getnopt(void) { cfg_t *c; unsigned i; cfg_getnopt(c, i); }
